@@ -198,4 +198,26 @@ def selectExtend (literal : Bool) (lit : S) (o : Opts) (cands : List Cand) : Exc
     let ms := cands.filter (fun c => c.fullMatch && usable o c)
     if ms.isEmpty then .error .noMatch else .ok (ms.map (·.name))
 
+/-- one name of a `goverter:extend` line: the package it addresses and what it selects there -/
+structure ExtEntry where
+  pkg : S
+  literal : Bool
+  lit : S
+  cands : List Cand
+  deriving Repr, Inhabited
+
+/-- the extend list of a converter (`config.parseConverterLine`, case "extend"): the names of all its extend lines in source
+order (global lines first), each contributing its selection, qualified by its package, at the end of the list; nothing is
+dropped or merged (two packages may declare functions with the same identifier), and the first name that selects nothing
+usable fails the configuration, whatever follows it on the line -/
+def extendList (o : Opts) : List ExtEntry → Except SelErr (List (S × S))
+  | [] => .ok []
+  | e :: rest =>
+    match selectExtend e.literal e.lit o e.cands with
+    | .error x => .error x
+    | .ok names =>
+      match extendList o rest with
+      | .error x => .error x
+      | .ok more => .ok (names.map (fun n => (e.pkg, n)) ++ more)
+
 end Gv.Signature
